@@ -189,6 +189,10 @@ func (store *BaseStore[E]) Create(ctx MutateContext, entity E) error {
 	}
 
 	bucket := store.getOrCreateEntityBucket(ctx.Tx(), []byte(entity.GetId()))
+	if bucket.HasError() {
+		// without a bucket there is nothing the entity strategy could persist into
+		return bucket.GetError()
+	}
 	persistCtx := &PersistContext{
 		MutateContext: ctx,
 		Id:            entity.GetId(),
